@@ -494,9 +494,9 @@ func c16Run(b *core.B) {
 
 func init() {
 	core.Register(&core.Prop{
-		ID:    "C16",
-		Level: "exploration",
-		Rule: "random functions of 0-4 parameters whose bodies are nested if / else-if / else decision chains over the parameters (comparisons with constants and each other) with returns, ticks after returns and fall-through; called with argument tuples made of constants, caller variables named like the callee's parameters (swapped / reversed orders) and recorded arguments; the result is used in 12 ways (emit, if, !, &&, ==, concatenation, addition, Go-helper argument, user-function argument, let then use, index, inside a block). Oracle: a reference interpreter of the decision chain gives the value; expected output per use; tick trace (nothing after the taken return runs) and argument trace (once, in order). Plus fixed higher-order programs (function passed, stored in hash/array, returned, called through a parameter) and recursion (fact, fib, sum to depth 12). Non-trivial = judged call, distinct by template hash.",
+		ID:      "C16",
+		Level:   "exploration",
+		Rule:    "random functions of 0-4 parameters whose bodies are nested if / else-if / else decision chains over the parameters (comparisons with constants and each other) with returns, ticks after returns and fall-through; called with argument tuples made of constants, caller variables named like the callee's parameters (swapped / reversed orders) and recorded arguments; the result is used in 12 ways (emit, if, !, &&, ==, concatenation, addition, Go-helper argument, user-function argument, let then use, index, inside a block). Oracle: a reference interpreter of the decision chain gives the value; expected output per use; tick trace (nothing after the taken return runs) and argument trace (once, in order). Plus fixed higher-order programs (function passed, stored in hash/array, returned, called through a parameter) and recursion (fact, fib, sum to depth 12). Non-trivial = judged call, distinct by template hash.",
 		Assume:  []string{"chains that compare values of different types are executed but not judged", "bodies emitting literal text before a return and return inside a for inside a function are not generated (abstentions of DESIGN.md §5 C16)"},
 		Batches: batchesQT(8, 32),
 		Run:     c16Run,
